@@ -33,3 +33,10 @@ run H12_jacobian_reorder paranoid_crypto/lib/ec_util.py 's=s.replace("    u1 = x
 run H13_check_loop_temp paranoid_crypto/lib/rsa_single_checks.py 'i=s.index("class CheckSizes"); j=s.index("class CheckExponents"); t=s[i:j]; k=t.index("      test_result = self._CreateTestResult()"); t=t[:k]+"      modulus_bytes = key.rsa_info.n\n"+t[k:]; s=s[:i]+t+s[j:]' C17 C16
 run H14_split_shift_temp paranoid_crypto/lib/randomness_tests/util.py 's=s.replace("      val >>= (i * m) & 7\n","      shift = (i * m) & 7\n      val >>= shift\n")' C15
 run H15_batchinverse_alias paranoid_crypto/lib/ec_util.py 's=s.replace("        res[i] = res[i] * inverse % mod\n        inverse = inverse * v % mod\n","        prefix = res[i]\n        res[i] = prefix * inverse % mod\n        inverse = v * inverse % mod\n")' C11
+run H16_multiply_stmt_order paranoid_crypto/lib/ec_util.py 's=s.replace("    res = INFINITY_JACOBIAN\n    pj = self.AffineToJacobian(p)\n","    pj = self.AffineToJacobian(p)\n    res = INFINITY_JACOBIAN\n")' C11 C02
+run H17_attach_factors_temp paranoid_crypto/lib/util.py 's=s.replace("  AttachInfo(test_info, info_name, str(new_set))\n","  serialized = str(new_set)\n  AttachInfo(test_info, info_name, serialized)\n")' C16 C01
+run H18_batchdouble_commute paranoid_crypto/lib/ec_util.py 's=s.replace("        tmp[i] = 2 * p[1]\n","        tmp[i] = p[1] * 2\n")' C11
+run H19_keypair_shift paranoid_crypto/lib/keypair_generator.py 's=s.replace("    p_size_bits = bits // 2\n    p = self.generate_prime(p_size_bits)","    p_size_bits = bits >> 1\n    p = self.generate_prime(p_size_bits)")' C01 C06
+run H20_map_loop_var paranoid_crypto/lib/ecdsa_sig_checks.py 's=s.replace("  for i, sig in enumerate(sigs):\n    pks[ec_util.PublicPoint(sig.issuer_key_info)].append(i)","  for i, signature in enumerate(sigs):\n    pks[ec_util.PublicPoint(signature.issuer_key_info)].append(i)")' C02 C17
+run H21_extended_dl_temp paranoid_crypto/lib/ec_util.py 's=s.replace("        res[k % num_points] = int(dlog * multipliers[k // num_points])\n","        mult = multipliers[k // num_points]\n        res[k % num_points] = int(dlog * mult)\n")' C02 C10
+run H22_keypair_check_temp paranoid_crypto/lib/rsa_single_checks.py 's=s.replace("        p, q = keypair_generator.Generator(seed).generate_key(n.bit_length())\n","        gen = keypair_generator.Generator(seed)\n        p, q = gen.generate_key(n.bit_length())\n")' C01 C18
